@@ -563,7 +563,33 @@ theorem C20_xyz2rgb_roundtrip_sharp (r g b : ℝ) (hr : 0 ≤ r ∧ r ≤ 255) (
   exact ⟨⟨r', g', b', e, b1, b2, b3, le_trans b1 (by norm_num), le_trans b2 (by norm_num), le_trans b3 (by norm_num)⟩,
     roundTrip_cyan_red⟩
 
+/-- **C20 (dtype handling of the colour conversions).** An integer image is converted to `double` before anything
+else (`rgb/255.` is true division, `np.dot` and `x/xn` promote): the model of a conversion of an integer image
+(`rgb2xyzInt`, `rgb2labInt`, `roundTripInt` — the driver's kind `rgbint`, which receives the *integers*) is the
+standard specification evaluated at the converted values, for every list of integers. A `dtype=` request is
+`astype(dtype)` of the `float64` result (`castOutInt`: C truncation `truncF`, then the dtype's reduction), and for
+every integer dtype the reduction is the identity wherever the truncated value lies in the dtype's range — e.g.
+XYZ in `[0, 1.09]`, L* in `[0, 100]`, a*, b* in `[−128, 127]` for `int8` and wider, round-tripped RGB in `[0, 255]` for
+`uint8` and wider. (The harness checks the other half on the real code for 9 input dtypes × 12 requests: integer
+input ≡ `astype(float64)` input bit for bit; `f(x, dtype=d) ≡ f(x).astype(d)`; the requested dtype is returned —
+which `xyz2rgb` did not do before `8e49120`.) -/
+theorem C20_dtype_handling (rgb : List Int) (dt : DT) (v : List Float) :
+    rgb2xyzInt rgb = rgb2xyzSpec (rgb.map Float.ofInt) ∧ rgb2labInt rgb = rgb2labSpec (rgb.map Float.ofInt) ∧
+    roundTripInt rgb = xyz2rgbSpec (rgb2xyzSpec (rgb.map Float.ofInt)) ∧
+    castOutInt dt v = v.map (fun y => dt.wrap (truncF y)) ∧
+    ((∀ y ∈ v, dt.lo ≤ truncF y ∧ truncF y ≤ dt.hi) → castOutInt dt v = v.map truncF) := by
+  have h := C20_model_is_standard (rgb.map Float.ofInt) (rgb2xyzSpec (rgb.map Float.ofInt))
+  refine ⟨h.1, h.2.2, ?_, rfl, ?_⟩
+  · unfold roundTripInt rgb2xyzInt
+    rw [h.1]; exact h.2.1
+  · intro hr
+    unfold castOutInt
+    apply List.map_congr_left
+    intro y hy
+    exact DT.wrap_of_mem dt (hr y hy).1 (hr y hy).2
+
 /-! non-vacuity (round 4) -/
+example : castOutInt (dtU 8) [] = [] ∧ (dtI 8).wrap 127 = 127 ∧ (dtI 8).wrap 199 = -57 := by decide +kernel
 example : stretchIntG (fun n : Int => (n : Rat)) truncQ (dtI 8) [3, 7, 5, 3] (some (-128)) (some (-25)) = [-128, -25, -76, -128] := by
   decide +kernel
 example : stretchIntG (fun n : Int => (n : Rat)) truncQ (dtU 8) [3, 7, 5, 3] none (some 9) = [0, 255, 127, 0] := by decide +kernel
